@@ -35,6 +35,7 @@ class Ctx:
         self.rtol = rtol; self.atol = atol
         self.numdim = numdim or 4
         self._patched = None
+        self._gradctr = 0
         self.pre = None
         self.begin_path()
         self.functions = set()
@@ -249,6 +250,34 @@ class Ctx:
             e = np.zeros(len(x)); e[i] = h
             g[i] = (float(fun(x + e)) - float(fun(x - e))) / (2 * h)
         return g
+    def grad_at(self, fun, point, h=1e-6):
+        """derivative of the scalar fun evaluated at an arbitrary (term-valued) point"""
+        point = np.asarray(point, dtype=object if self.sym else float).reshape(-1)
+        if self.sym:
+            from . import diff
+            n = len(point)
+            vs = [z3.Real(f"gradat!{self._gradctr}_{i}") for i in range(n)]
+            self._gradctr += 1
+            x = np.array([SReal(v) for v in vs], dtype=object)
+            val = fun(x)
+            g = diff.grad(val, list(x))
+            sub = [(v, T(p)) for v, p in zip(vs, point)]
+            return np.array([SReal(z3.substitute(gi.t, *sub)) for gi in g], dtype=object)
+        return self.grad_of(fun, point, h)
+    def hessian_of(self, fun, n):
+        """(constant) Hessian of a quadratic scalar fun of n variables: term differentiation twice / finite differences"""
+        if self.sym:
+            from . import diff
+            vs = [z3.Real(f"hess!{self._gradctr}_{i}") for i in range(n)]; self._gradctr += 1
+            x = np.array([SReal(v) for v in vs], dtype=object)
+            g = diff.grad(fun(x), list(x))
+            return np.array([[SReal(z3.simplify(diff.d(gi.t, v))) for v in vs] for gi in g], dtype=object)
+        H = np.zeros((n, n)); h = 1e-4; x0 = np.zeros(n)
+        for i in range(n):
+            for j in range(n):
+                ei = np.zeros(n); ej = np.zeros(n); ei[i] = h; ej[j] = h
+                H[i, j] = (fun(x0 + ei + ej) - fun(x0 + ei - ej) - fun(x0 - ei + ej) + fun(x0 - ei - ej)) / (4 * h * h)
+        return H
     def pathcond(self):
         """sym: conjunction of decisions so far (for reading thresholds off the path condition)"""
         return list(ST.pc)
